@@ -390,6 +390,8 @@ class FuncAnalyzer:
         self.breaks = []
         self.multi = set()
         self.appended = {}
+        self.qloops = set()      # queues inside their `while len(Q) != 1` loop (at least two elements at the loop head)
+        self.min2 = set()        # local list names known to hold at least two elements at this point (batch of the reduction-queue idiom)
 
     # ------------------------------------------------------------------ driver
     def run(self):
@@ -421,8 +423,11 @@ class FuncAnalyzer:
             env[p.arg] = V({P(base + j)})
         if a.kwarg:
             env[a.kwarg.arg] = V((), True)
+        self.min2_params = {name for name, qual in (self.bind or ()) if qual == "__min2__"}
         if self.bind:
             for name, qual in self.bind:
+                if qual == "__min2__":
+                    continue
                 f = self.src.find_func(self.fi.rel, qual)
                 if f is not None:
                     env[name] = V({("FN", f.rel, f.qual, frozenset())})
@@ -568,6 +573,18 @@ class FuncAnalyzer:
             env.update(self.join_env(e1, e2))
             return
         if isinstance(s, (ast.For, ast.AsyncFor)):
+            # `for _ in range(min(<batchsize>, len(Q))): L.append(Q.popleft())` while len(Q) >= 2 is known (reduction-queue idiom) and the
+            # batch size parameter defaults to a literal >= 2: L holds at least two elements afterwards
+            it = unparse(s.iter).replace(" ", "")
+            for q in self.qloops:
+                if it.startswith("range(min(") and it.endswith(f",len({q})))"):
+                    bs = it[len("range(min("):-len(f",len({q})))")]
+                    if self.default_at_least_2(bs):
+                        for st in s.body:
+                            c_ = st.value if isinstance(st, ast.Expr) else None
+                            if isinstance(c_, ast.Call) and isinstance(c_.func, ast.Attribute) and c_.func.attr == "append" and isinstance(c_.func.value, ast.Name) \
+                                    and unparse(c_.args[0]).replace(" ", "") in (f"{q}.popleft()", f"{q}.pop()", f"{q}.pop(0)"):
+                                self.min2.add(c_.func.value.id)
             self.loop(s, env, lambda e: self.bind_iter(s.target, s.iter, e))
             self.block(s.orelse, env)
             return
@@ -612,6 +629,18 @@ class FuncAnalyzer:
             return
         raise AnalysisError(f"{self.where}: statement kind {type(s).__name__} not handled by EFFECT")
 
+    def default_at_least_2(self, name):
+        """parameter `name` of the analysed function has a literal integer default >= 2 (or is such a literal itself)"""
+        try:
+            return int(name) >= 2
+        except ValueError:
+            pass
+        a = self.fi.node.args
+        ps = a.posonlyargs + a.args
+        d = dict(zip([p.arg for p in ps[len(ps) - len(a.defaults):]], a.defaults))
+        v = d.get(name)
+        return isinstance(v, ast.Constant) and isinstance(v.value, int) and v.value >= 2
+
     def loop(self, s, env, head):
         always = isinstance(s, ast.While) and isinstance(s.test, ast.Constant) and s.test.value is True
         # reduction-queue idiom (this repository's compressed_sum): inside `if len(Q) > 1:` the loop
@@ -624,6 +653,7 @@ class FuncAnalyzer:
                     qname = q
         if qname is not None:
             self.appended[qname] = EMPTY
+            self.qloops.add(qname)
         self.breaks.append([])
         for _ in range(6):
             before = {k: v for k, v in env.items()}
@@ -651,11 +681,13 @@ class FuncAnalyzer:
         if qname is not None:
             ap = self.appended.pop(qname, EMPTY)
             env[qname] = V(ap.tags, True)
+            self.qloops.discard(qname)
 
     # ------------------------------------------------------------------ assignment / stores
     def assign(self, t, v, env, stmt):
         if isinstance(t, ast.Name):
             env[t.id] = v
+            self.min2.discard(t.id)
             return
         if isinstance(t, (ast.Tuple, ast.List)):
             if v.elts is not None and len(v.elts) == len(t.elts) and not any(isinstance(x, ast.Starred) for x in t.elts):
@@ -1054,6 +1086,11 @@ class FuncAnalyzer:
                 r = self.call_value(args[0], [el, el], {}, c, env)
                 r2 = self.call_value(args[0], [r, el], {}, c, env)
                 out = r.join(r2)
+                # reduce over a one-element sequence returns that element itself (no call of the function): the result may alias it,
+                # unless the sequence is a parameter the caller guarantees to hold at least two elements
+                seqn = c.args[1]
+                if not (isinstance(seqn, ast.Name) and seqn.id in self.min2_params) and len(c.args) < 3:
+                    out = out.join(el)
                 return out
             if n == "getattr" and len(c.args) >= 2 and isinstance(c.args[1], ast.Constant) and isinstance(c.args[1].value, str):
                 fake = ast.Attribute(value=c.args[0], attr=c.args[1].value, ctx=ast.Load())
@@ -1338,6 +1375,11 @@ class FuncAnalyzer:
             if "inplace" in tps and isinstance(call, ast.Call):
                 pos = tps.index("inplace") - (1 if recv is not None else 0)
                 inplace = self.const_kw(call, "inplace", pos, env)
+            if isinstance(call, ast.Call) and self.min2:
+                off = 1 if recv is not None else 0
+                extra = tuple((tps[i + off], "__min2__") for i, a_ in enumerate(call.args) if isinstance(a_, ast.Name) and a_.id in self.min2 and i + off < len(tps))
+                if extra:
+                    bind = (bind or ()) + extra
             s = self.eng.get(target, inplace, bind, dependent=self.k)
             actual = {}
             seq = ([recv] if recv is not None else []) + list(args)
